@@ -1,0 +1,51 @@
+/* Verification hooks.  Everything in this header is inert unless the library is
+   compiled with -DNLOPT_VERIF: with the guard off every macro below expands to
+   nothing and no symbol is declared. */
+#ifndef NLOPT_VERIF_H
+#define NLOPT_VERIF_H
+
+#ifdef NLOPT_VERIF
+
+#ifdef __cplusplus
+extern "C" {
+#endif
+
+    typedef struct {
+        /* virtual clock: when set, nlopt_seconds() returns its value */
+        double (*seconds) (void);
+        /* when set, nlopt_time_seed() returns its value */
+        unsigned long (*time_seed) (void);
+        /* when set and returning nonzero, *out replaces the next raw 32-bit
+           Mersenne-Twister output */
+        int (*rng_raw) (unsigned *out);
+        /* point proposed at an evaluation site, before NLopt's glue code maps
+           it to the point handed to the user (clamp / unscale / transform) */
+        void (*site) (int site_id, int n, const double *x);
+        /* flattened constraint values / tolerances as an algorithm sees them */
+        void (*flat) (int site_id, int m, const double *v);
+        /* generic event: entry/exit of internal functions */
+        void (*event) (int event_id, const void *obj, const double *x, double v, int r);
+    } nlopt_verif_hooks_t;
+
+    extern nlopt_verif_hooks_t nlopt_verif_hooks;
+
+#ifdef __cplusplus
+}
+#endif
+
+#define NLOPT_VERIF_SITE(id, n, x) \
+    do { if (nlopt_verif_hooks.site) nlopt_verif_hooks.site((id), (int) (n), (x)); } while (0)
+#define NLOPT_VERIF_FLAT(id, m, v) \
+    do { if (nlopt_verif_hooks.flat) nlopt_verif_hooks.flat((id), (int) (m), (v)); } while (0)
+#define NLOPT_VERIF_EVENT(id, obj, x, v, r) \
+    do { if (nlopt_verif_hooks.event) nlopt_verif_hooks.event((id), (obj), (x), (v), (r)); } while (0)
+
+#else                           /* !NLOPT_VERIF */
+
+#define NLOPT_VERIF_SITE(id, n, x) ((void) 0)
+#define NLOPT_VERIF_FLAT(id, m, v) ((void) 0)
+#define NLOPT_VERIF_EVENT(id, obj, x, v, r) ((void) 0)
+
+#endif                          /* NLOPT_VERIF */
+
+#endif                          /* NLOPT_VERIF_H */
